@@ -122,6 +122,9 @@ pub struct Case {
     /// values that lose an insertion race panic in their destructor
     #[serde(default)]
     grumpy: bool,
+    /// after the racing phase: that many removals of ids that were never in the cache (twice each)
+    #[serde(default)]
+    ghost_removals: u16,
 }
 
 #[derive(Debug, Clone)]
@@ -138,12 +141,13 @@ struct Rec {
     panicked: bool,
 }
 
-/// Keys 2..4 have empty components: ids are keys verbatim, each has its own file in the source.
+/// Keys 2..5 have empty components or a '/': ids are keys verbatim, each has its own file in the source.
 fn key_name(k: u8) -> String {
     match k {
         2 => "k0.".to_string(),
         3 => ".k0".to_string(),
         4 => "k0..k1".to_string(),
+        5 => "k0/k1".to_string(),
         _ => format!("k{k}"),
     }
 }
@@ -380,7 +384,7 @@ impl Op {
 fn run_shared(c: &Case, out: &mut Outcome) {
     let src = make_source(c.keys, c.hot);
     let old = procfs::set_cpus(c.cpus.max(1) as usize);
-    let cache = AssetCache::with_source(src);
+    let mut cache = AssetCache::with_source(src);
     if let Some(old) = &old {
         procfs::restore_cpus(old);
     }
@@ -475,6 +479,18 @@ fn run_shared(c: &Case, out: &mut Outcome) {
     let canonical = canon_now(&cache);
     let losers = check_log(out, &log, &canonical, "after the racing phase");
     if out.failed() {
+        return;
+    }
+    // removals of keys that were never there leave no trace: every entry is still found under its handle
+    for i in 0..c.ghost_removals {
+        let id = format!("ghost{i}");
+        if cache.remove::<L1>(&id) || cache.take::<SV>(&id).is_some() || cache.remove::<L1>(&id) {
+            out.fail("ghost-removed", format!("remove/take of {id:?}, which was never in the cache, reported success"));
+            return;
+        }
+    }
+    if c.ghost_removals > 0 && canon_now(&cache) != canonical {
+        out.fail("presence-flipped", format!("after removing {} ids that were never in the cache, a fresh lookup of the racing phase's keys no longer returns the same handles (entries vanished or moved without having been removed)", c.ghost_removals));
         return;
     }
     // growth: many unrelated insertions, then every retained handle must still be the one and readable
@@ -597,7 +613,7 @@ impl Prop for C01 {
     fn rule(&self) -> String {
         "cases = (2..8 thread programs of load / get_cached / get_or_insert / contains on 1..6 overlapping keys of an asset type and a storable type, through AssetCache or its AnyCache view; \
          optional gate: loaders that passed the cache miss wait (bounded) for each other inside the harness loader, forcing simultaneous misses; 0..20000 (thorough: up to 300000) unrelated insertions \
-         concurrently and afterwards; shard count via CPU affinity 1/2/3/4/5/6/7/12/16 at construction; with or without a reloader; keys include ids with empty components (k0., .k0, k0..k1), each with its own file; \
+         concurrently and afterwards; shard count via CPU affinity 1/2/3/4/5/6/7/12/16 at construction; with or without a reloader; keys include ids with empty components or a '/' (k0., .k0, k0..k1, k0/k1), each with its own file; in a third of the cases 50..600 ids that were never cached are removed (twice) after the racing phase (nothing may vanish); \
          in a quarter of the cases every value that loses a race panics in its destructor (the unwinding call is the loser's own, every other call must be unaffected); a single-threaded LocalAssetCache variant). \
          Oracle over the joined logs: one pointer and one value per key, presence monotone along a ticket-based happens-before order, ledger: exactly the winner alive and every loser dropped once, \
          retained handles still identical and readable after growth. non-trivial = >= 2 loaders provably inside the miss window of one key, or >= 1 value that lost an insertion race, or (local variant) >= 1000 growth insertions; distinct = different canonical JSON"
@@ -634,9 +650,10 @@ impl Prop for C01 {
                     prop::bool::weighted(0.12),
                     any::<bool>(),
                     prop::bool::weighted(0.25),
+                    prop_oneof![2 => Just(0u16), 1 => 50u16..600],
                 )
             })
-            .prop_map(|(mut threads, keys, gate, filler, cpus, local, hot, grumpy)| {
+            .prop_map(|(mut threads, keys, gate, filler, cpus, local, hot, grumpy, ghost_removals)| {
                 if gate {
                     // make the first op of most threads a load of one hot key
                     let hot_key = threads[0][0].key;
@@ -647,7 +664,7 @@ impl Prop for C01 {
                         }
                     }
                 }
-                to_case(&Case { threads, keys, gate, filler, cpus, local, hot, grumpy: grumpy && !local })
+                to_case(&Case { threads, keys, gate, filler, cpus, local, hot, grumpy: grumpy && !local, ghost_removals })
             })
             .boxed()
     }
@@ -674,6 +691,9 @@ impl Prop for C01 {
         out.label(format!("cpus:{}", c.cpus));
         if c.filler >= 5000 {
             out.label("growth>=5000");
+        }
+        if c.ghost_removals > 0 && !c.local {
+            out.label("ghost-removals-first");
         }
         out
     }
